@@ -21,6 +21,7 @@ def run_one(prop: str, tier: str, seed: int, repo_root=None, overlay=None, quiet
     repo = Repo(repo_root, overlay)
     ctx = Ctx(prop, repo, tier, seed, quiet)
     mod.run(ctx)
+    ctx.end_of_run()
     return ctx, mod
 
 
